@@ -503,3 +503,96 @@ EXPLANATION = "under construction"
 ASSUMPTIONS = []
 TRUSTED = []
 BOUNDED = [{"name": "mode-flags-vs-os-oracle-and-nested-configs", "script": "bounded/b19_paths.py"}]
+
+
+# ------------------------------------------------------------------------------------------------ reading through a Path
+# "relative paths follow the config": a Path remembers the absolute location it was resolved to when it was created (relative to the
+# directory of the config file it came from); reading goes to *that* location, whatever the working directory is by then.
+def _path_rec(kind):
+    return Rec("Path", attrs={"_relative": z3.String("path.relative"), "_absolute": z3.String("path.absolute"), "_cwd": z3.String("path.cwd"), "_mode": "fr",
+                              "_std_io": kind == "stdio", "_is_url": kind == "url", "_is_fsspec": kind == "fsspec", "_url_data": None})
+
+
+def gc_setup(ctx):
+    kind = ["local", "stdio", "url", "fsspec"][ctx.choose(4, "kind")]
+    mode = ["r", "rb", "omitted"][ctx.choose(3, "mode")] if kind != "url" else "omitted"
+    self = _path_rec(kind)
+    content = z3.String("content")
+    opened = []
+
+    def handle(where):
+        h = Rec("file", attrs={"where": where}, methods={"read": lambda c, s_, a, k: (c.event("read", s_.attrs["where"]), content)[1]})
+        return h
+
+    def cm_open(tag):
+        return (lambda c, a, k: (c.event("open", tag, a[0], a[1] if len(a) > 1 else k.get("mode", "r")), opened.append(tag), handle((tag, a[0])))[2], lambda c, t, e: (opened.pop(), False)[1])
+
+    requests = Rec("requests", methods={"get": lambda c, s_, a, k: (c.event("http-get", a[0]), Rec("response", attrs={"text": content}, methods={"raise_for_status": lambda c2, s2, a2, k2: None}))[1]})
+    calls = {"read_cached_stdin": lambda c, a, k: (c.event("stdin"), content)[1], "import_requests": lambda c, a, k: requests,
+             "import_fsspec": lambda c, a, k: Rec("fsspec")}
+    cms = {"open": cm_open("builtin-open"), "fsspec.open": cm_open("fsspec-open"), "handle": (lambda c, a, k: a[0], lambda c, t, e: False)}
+    env = {"self": self}
+    if mode != "omitted":
+        env["mode"] = mode
+    return Setup(env=env, calls=calls, cms=cms, data=dict(kind=kind, mode="r" if mode == "omitted" else mode, self_=self, content=content, opened=opened))
+
+
+def gc_post(ctx, st, result):
+    d = st.data
+    tag = f"[{d['kind']},mode={d['mode']}]"
+    ev = [e for e in ctx.events if e[0] in ("open", "http-get", "stdin")]
+    a = d["self_"].attrs["_absolute"]
+    want = {"local": [("open", "builtin-open", a, d["mode"])], "fsspec": [("open", "fsspec-open", a, d["mode"])], "url": [("http-get", a)], "stdio": [("stdin",)]}[d["kind"]]
+    ctx.oblige("post", "the-content-is-read-from-the-absolute-location-the-path-was-resolved-to(never from its relative spelling),once,with-the-given-mode" + tag,
+               len(ev) == len(want) and all(len(x) == len(y) and all(p is q or p == q for p, q in zip(x, y)) for x, y in zip(ev, want)) and result is d["content"])
+    ctx.oblige("post", "nothing-is-left-open" + tag, not d["opened"])
+
+
+def gc_raises(ctx, st, exc):
+    ctx.oblige("raises", f"no-own-exception(got {exc.cls}@{exc.origin})", False)
+
+
+def acc_setup(ctx):
+    which = ["__call__(absolute=True)", "__call__(absolute=False)", "__call__()"][ctx.choose(3, "accessor")]
+    self = _path_rec("local")
+    env = {"self": self}
+    if which.startswith("__call__(absolute="):
+        env["absolute"] = which.endswith("True)")
+    return Setup(env=env, data=dict(which=which, self_=self))
+
+
+def acc_post(ctx, st, result):
+    d = st.data
+    want = d["self_"].attrs["_relative"] if d["which"] in ("__call__(absolute=False)", "__str__") else d["self_"].attrs["_absolute"]
+    ctx.oblige("post", f"{d['which']}-is-the-{'spelling given' if want is d['self_'].attrs['_relative'] else 'absolute location'}", result is want)
+
+
+def fixed_accessor(which):
+    def setup(ctx):
+        self = _path_rec("local")
+        return Setup(env={"self": self}, data=dict(which=which, self_=self))
+    return setup
+
+
+def eq_setup(ctx):
+    kind = ["other-Path", "str", "something-else"][ctx.choose(3, "other")]
+    ctx.classes.add("Path", ["object"])
+    self = _path_rec("local")
+    other = {"other-Path": Rec("Path", attrs={"_absolute": z3.String("other.absolute"), "_relative": z3.String("other.relative")}), "str": z3.String("other"), "something-else": z3.Int("other")}[kind]
+    return Setup(env={"self": self, "other": other}, consts={"Path": ClassRef("Path")}, calls={"str": lambda c, a, k: a[0].attrs["_relative"] if isinstance(a[0], Rec) else a[0]}, data=dict(kind=kind, self_=self, other=other))
+
+
+def eq_post(ctx, st, result):
+    d = st.data
+    s, o = d["self_"], d["other"]
+    want = (s.attrs["_absolute"] == o.attrs["_absolute"]) if d["kind"] == "other-Path" else (s.attrs["_relative"] == o) if d["kind"] == "str" else z3.BoolVal(False)
+    ctx.oblige("post", f"two-paths-are-equal-iff-they-resolve-to-the-same-absolute-location(a string: iff it is the spelling given)[{d['kind']}]", lift(result) == want, strings=True)
+
+
+UNITS += [
+    Unit("C19", "jsonargparse._util:Path.get_content", gc_setup, gc_post, gc_raises, trusted=["open / fsspec.open / requests.get / the cached stdin are the I/O primitives (ghost events)"]),
+    Unit("C19", "jsonargparse._util:Path.__call__", acc_setup, acc_post, gc_raises),
+    Unit("C19", "jsonargparse._util:Path.__fspath__", fixed_accessor("__fspath__"), acc_post, gc_raises),
+    Unit("C19", "jsonargparse._util:Path.__str__", fixed_accessor("__str__"), acc_post, gc_raises),
+    Unit("C19", "jsonargparse._util:Path.__eq__", eq_setup, eq_post, gc_raises),
+]
